@@ -339,6 +339,7 @@ func c07run(toks []string) string {
 	c07epoch++
 	c07mu.Unlock()
 	defer func() { // leave no mock behind for the next history
+		runtime.KeepAlive(handles) // what the test holds stays a GC root for the whole history (matches the model's roots)
 		for _, b := range builders {
 			if b != nil {
 				b.Reset()
@@ -424,6 +425,62 @@ func c07run(toks []string) string {
 				}
 			}
 			obs = append(obs, c07mock(h, v, kind, fits, f[3], k, a))
+		case "pc": // pc:b:v:called:k:m1,m2,..  — another goroutine keeps calling `called` while this one mocks m1,m2,..
+			b, _ := strconv.Atoi(f[1])
+			vi, _ := strconv.Atoi(f[2])
+			k, _ := strconv.Atoi(f[4])
+			if vi >= len(vars) || dropped[b] || builders[b] == nil {
+				return "bad-op"
+			}
+			v := vars[vi]
+			called := f[3]
+			want := c07catch(func() string { return v.t.call(v.slot, called, 5) })
+			stop := make(chan struct{})
+			started := make(chan struct{})
+			done := make(chan string, 1)
+			go func() {
+				n, res := 0, "ok"
+				defer func() {
+					if r := recover(); r != nil {
+						res = "panic:" + c07class(r)
+					}
+					done <- res
+				}()
+				for {
+					select {
+					case <-stop:
+						return
+					default:
+					}
+					if got := v.t.call(v.slot, called, 5); got != want {
+						res = "wrong:" + got
+						return
+					}
+					if n++; n == 1 {
+						close(started)
+					}
+				}
+			}()
+			select { // the schedule is only exercised once the caller runs; a loaded machine may need a while
+			case <-started:
+			case <-time.After(5 * time.Second):
+			}
+			res := "ok"
+			for i, name := range strings.Split(f[5], ",") {
+				bb := builders[b]
+				var h *CachedInterfaceMocker
+				h = bb.Interface(v.t.ptr(v.slot))
+				if r := c07mock(h, v, "ap", true, name, k+i, 0); r != "ok" {
+					res = r
+				}
+				runtime.Gosched()
+			}
+			time.Sleep(200 * time.Microsecond)
+			close(stop)
+			if r := <-done; r != "ok" {
+				res = "concurrent-call:" + r
+			}
+			obs = append(obs, res)
 		case "as": // the test assigns the variable
 			vi, _ := strconv.Atoi(f[1])
 			id, _ := strconv.Atoi(f[2])
